@@ -82,7 +82,9 @@ def oracle(name, ib, mb, meta):
                  12: 'link speed', 13: 'RSSI', 14: 'icon marker', 15: 'machine name', 17: 'friendly-name marker', 20: 'QoS characteristics'}
         for t in sorted(set(want) | set(P)):
             if t not in P: fails.append((i, 'property %s (%d) missing from the Hello' % (names.get(t, '?'), t)))
-            elif t not in want: fails.append((i, 'property %s (%d) present although the interface %s' % (names.get(t, '?'), t, 'is not wireless' if t in (4, 5, 6, 9, 13) else 'does not supply it')))
+            elif t not in want:
+                # properties the statement does not speak about (UUID, support URL, ...) are none of this property's business
+                if t in (4, 5, 6, 9, 13): fails.append((i, 'property %s (%d) present although the interface %s' % (names.get(t, '?'), t, 'is not wireless' if kv.get('wifi', 'none') == 'none' else 'does not supply it')))
             elif P[t] != want[t]: fails.append((i, 'property %s (%d) decodes to %s, the platform supplied %s' % (names.get(t, '?'), t, P[t].hex() or '(empty)', want[t].hex() or '(empty)')))
     return fails
 def count(name, lines, ib, stats, meta):
